@@ -4,7 +4,7 @@ import arrayprop, directed
 
 def run(tier):
     return arrayprop.standard_run(
-        "C11", tier, profiles=["c11", "c11", "c11", "c19"], nquick=40, nthorough=400, steps=(30, 44), sim=False,
+        "C11", tier, profiles=["c11", "inodes", "c11", "c19", "inodes"], nquick=40, nthorough=400, steps=(30, 44), sim=False,
         directed_jobs=lambda s0: [(s0 + 1, dict(nd=2, np=1, copies=2), "directed-linkkinds", 0, directed.link_kinds),
                                   (s0 + 2, dict(nd=2, np=1, copies=2), "directed-restore-after-kill", 0, directed.restore_after_killed_sync),
                                   (s0 + 3, dict(nd=2, np=1, copies=2), "directed-restore-after-kill", 0, directed.restore_after_killed_sync)],
@@ -16,5 +16,7 @@ def run(tier):
              "a successful full sync no file/link/empty-dir difference and no unsynced block remain (C11_AfterSync), diff exits 2 "
              "exactly when something differs or a sync was incomplete (C11_Diff), list prints exactly the recorded files and links "
              "(C11_List), and every block recorded as synced carries the hash of the data now on disk (changed files are read again)",
-        assumptions=["no usable inodes/UUIDs in the sandbox: files are matched by path, size and time stamp (inode-based move/restore "
-                     "detection is not exercised)", "forced alphabetical order and sequential disk scan in the conformance runs"])
+        assumptions=["the sandbox has no UUIDs: the profile 'inodes' runs every command with --test-fake-uuid (the first two data disks "
+                     "get a UUID, their recorded inode numbers are trusted from the second sync on: moves, exchanged names, files "
+                     "coming back with a new inode, reordered data lines = changed UUIDs); the other profiles scan by path, size and "
+                     "time stamp", "forced alphabetical order and sequential disk scan in the conformance runs"])
